@@ -15,38 +15,52 @@ Open Scope Z_scope.
 Definition token_roundtrip {F T} (fmtJ : F -> option T) (parseJ : T -> option F) : Prop :=
   forall x t, fmtJ x = Some t -> parseJ t = Some x.
 
+(* no_panic: the outcome of a reader is a value or an error — never a panic, never a crash *)
+Definition no_panic {A} (r : res A) : Prop := r <> Panic /\ r <> Crash.
+
 (* ------------------------------------------------------------------ scalars *)
 Theorem plain_scalar_roundtrip :
   forall F T (fmtJ : F -> option T) parseJ, token_roundtrip fmtJ parseJ ->
   forall x t, write_plain F T fmtJ x = Ok t -> read_plain F T parseJ t = Ok x.
 Proof. exact plain_roundtrip. Qed.
 
-(* value exactly; gradient and Hessian exactly where the document carries them, and
-   zero-for-zero where it does not; for every Real except "gradient zero, Hessian not" *)
+(* constant scalars (ConstFloat64, ConstInt8, ...): written as the underlying number (da67985), read back as it *)
+Theorem const_scalar_roundtrip :
+  forall F T (fmtJ : F -> option T) parseJ, token_roundtrip fmtJ parseJ ->
+  forall x t, write_const F T fmtJ x = Ok t -> read_plain F T parseJ t = Ok x.
+Proof. exact const_roundtrip. Qed.
+
+(* EVERY well-formed Real — zero gradient with non-zero Hessian included (500dcc2): value exactly; gradient and
+   Hessian exactly where the document carries them, and zero-for-zero where it does not *)
 Theorem real_scalar_roundtrip :
   forall F T zero nz (fmtJ : F -> option T) parseJ, nz zero = false -> token_roundtrip fmtJ parseJ ->
-  forall r d, wf_real F r -> ~ hess_only F nz r -> write_real F T nz fmtJ r = Ok d ->
-  exists r', read_real F T parseJ d = Ok r' /\ wf_real F r' /\ real_obs_eq F zero nz r r'.
+  forall r d, wf_real F r -> write_real F T nz fmtJ r = Ok d ->
+  exists r', read_real F T zero parseJ d = Ok r' /\ wf_real F r' /\ real_obs_eq F zero nz r r'.
 Proof. exact real_roundtrip. Qed.
 
-(* what the scalar reader establishes, and the one thing it does not check *)
-Theorem real_reader_checks_everything_but_the_hessian_shape :
-  forall F T (parseJ : T -> option F) d r, read_real F T parseJ d = Ok r ->
-  0 <= rorder r <= 2 /\ 0 <= rn r /\ (1 <= rorder r -> zlen (rderiv r) = rn r) /\
-  (wf_real F r <-> (2 <= rorder r -> zlen (rhess r) = rn r /\ Forall (fun row => zlen row = rn r) (rhess r))).
-Proof. exact real_reader_shape. Qed.
+(* reader safety on every document (b9c30c8, 500dcc2): what the reader accepts is well-formed; it never panics *)
+Theorem real_reader_safety :
+  forall F T zero (parseJ : T -> option F) d,
+  no_panic (read_real F T zero parseJ d) /\ forall r, read_real F T zero parseJ d = Ok r -> wf_real F r.
+Proof. intros F T zero parseJ d. split; [apply real_reader_total|intros r; apply real_reader_safe]. Qed.
 
-Theorem real_scalar_hessian_only_refuted :
-  exists r d r', wf_real Z r /\ Zwr r = Ok d /\ Zrd d = Ok r' /\
-                 rn r' = 0 /\ getD Z 0 r' 0 = Panic /\ ~ real_obs_eq Z 0 Znz r r' /\ ~ wf_real Z r'.
-Proof. exact real_hessonly_refuted. Qed.
+(* the witnesses of the retired findings, with today's outcomes *)
+Theorem real_scalar_hessian_only_regression :
+  wf_real Z hessonly_witness /\ hess_only Z Znz hessonly_witness /\
+  Zwr hessonly_witness = Ok (SObj 0 None (Some [[0; 1]; [1; 0]])) /\
+  Zrd (SObj 0 None (Some [[0; 1]; [1; 0]])) = Ok hessonly_witness.
+Proof. exact real_hessonly_regression. Qed.
 
-Theorem real_reader_safety_refuted :
-  exists d r, Zrd d = Ok r /\ ~ wf_real Z r /\ getH Z 0 r 0 1 = Ok 2 /\ getH Z 0 r 1 1 = Panic.
-Proof. exact real_reader_unsafe_refuted. Qed.
+Theorem real_reader_shape_regression :
+  Zrd (SObj 1 (Some [1]) (Some [[1; 2]; [3]])) = Err /\
+  Zrd (SObj 1 (Some [1]) (Some [[1; 2]])) = Err /\
+  Zrd (SObj 1 (Some [1; 2]) (Some [[1; 2]])) = Err /\
+  Zrd (SObj 1 None (Some [[1; 2]])) = Err /\
+  Zrd (SObj 1 None (Some [[1]])) = Ok (mkReal 1 2 1 [0] [[1]]).
+Proof. exact ProofsScalar.real_reader_shape_regression. Qed.
 
-Theorem const_scalar_write_refuted : forall x : Z, write_const Z Z x = Crash.
-Proof. exact const_write_refuted. Qed.
+Theorem const_scalar_write_regression : forall x : Z, write_const Z Z Zfmt x = Ok x.
+Proof. exact const_write_regression. Qed.
 
 (* ------------------------------------------------------------ dense vectors *)
 Theorem dense_vector_roundtrip :
@@ -69,33 +83,35 @@ Theorem sparse_vector_support_preserved :
   sv_obs_eq F zero nz E eval v v' -> sv_support_eq F zero nz E eval v v'.
 Proof. exact sv_obs_support. Qed.
 
-(* reader safety as far as it holds: sorted distinct keys below the dimension; non-negativity
-   only if the document's indices and Length are non-negative (Go does not check) *)
-Theorem sparse_reader_safety_partial :
-  forall F T nz (parseJ : T -> option F) d v, read_sv F T nz parseJ d = Ok v ->
-  sv_n v = svd_length d /\ sorted (sv_ents v) /\ Forall (fun kv => fst kv < sv_n v) (sv_ents v) /\
-  (0 <= svd_length d -> Forall (fun k => 0 <= k) (svd_index d) -> wf_sv v).
-Proof. exact read_sv_safe. Qed.
+(* reader safety at full strength (a328708), every document: no panic, and an accepted document gives a
+   well-formed vector (sorted distinct keys in [0, Length), Length >= 0) *)
+Theorem sparse_reader_safety :
+  forall F T nz (parseJ : T -> option F) d,
+  no_panic (read_sv F T nz parseJ d) /\
+  forall v, read_sv F T nz parseJ d = Ok v -> wf_sv v /\ sv_n v = svd_length d.
+Proof. intros F T nz parseJ d. split; [apply read_sv_total|intros v; apply read_sv_safe]. Qed.
 
-Theorem sparse_reader_panics_refuted :
-  Zrsv (mkSvDoc [1] [1] 1) = Panic /\ Zrsv (mkSvDoc [0; 0] [1; 1] 1) = Panic /\
-  (exists v, Zrsv (mkSvDoc [0; 0] [0; 1] 1) = Ok v).
-Proof. exact ProofsSparse.sparse_reader_panics_refuted. Qed.
+(* what exactly is accepted: the unvalidated core (still the whole of the table reader) behind the checks *)
+Theorem sparse_reader_validation :
+  forall F T nz (parseJ : T -> option F) d v,
+  read_sv F T nz parseJ d = Ok v <->
+  (read_sv_core F T nz parseJ d = Ok v /\ 0 <= svd_length d /\
+   Forall (fun k => 0 <= k < svd_length d) (svd_index d) /\ NoDup (svd_index d)).
+Proof. exact read_sv_validation. Qed.
 
-Theorem sparse_reader_negative_index_refuted :
-  exists d v, Zrsv d = Ok v /\ ~ wf_sv v /\ lookup (-1) (sv_ents v) = Some 1.
-Proof. exact sparse_reader_negidx_refuted. Qed.
-
-Theorem sparse_reader_negative_length_refuted : exists d v, Zrsv d = Ok v /\ ~ wf_sv v.
-Proof. exact sparse_reader_neglen_refuted. Qed.
+Theorem sparse_reader_regression :
+  Zrsv (mkSvDoc [1] [1] 1) = Err /\ Zrsv (mkSvDoc [0; 0] [1; 1] 1) = Err /\ Zrsv (mkSvDoc [0; 0] [0; 1] 1) = Err /\
+  Zrsv (mkSvDoc [-1] [1] 1) = Err /\ Zrsv (mkSvDoc [] [] (-1)) = Err /\
+  Zrsv (mkSvDoc [2; 0] [5; 0] 3) = Ok (mkSv [(2, 5)] 3).
+Proof. exact ProofsSparse.sparse_reader_regression. Qed.
 
 (* ----------------------------------------------------------- dense matrices *)
 (* every view: any header satisfying wf_dm — in particular (closure lemmas below) everything
-   reachable from a full matrix by slices and transposes *)
+   reachable from a full matrix by slices and transposes.  rows*cols < 2^63: the element count is a Go int *)
 Theorem dense_matrix_roundtrip_all_views :
   forall E D (wr : E -> res D) rd ezero (good : E -> Prop) (R : E -> E -> Prop),
   (forall e d, good e -> wr e = Ok d -> exists e', rd d = Ok e' /\ R e e') ->
-  forall m d b, wf_dm m -> Forall good (dm_vals m) -> write_dm E D wr ezero m = Ok d ->
+  forall m d b, wf_dm m -> dm_rows m * dm_cols m < 2^63 -> Forall good (dm_vals m) -> write_dm E D wr ezero m = Ok d ->
   exists m', read_dm E D rd b d = Ok m' /\ wf_dm m' /\ dm_obs_eq R m m'.
 Proof. exact dm_roundtrip. Qed.
 
@@ -119,20 +135,28 @@ Theorem dense_repack_total :
   forall E ezero (m : dmat E), wf_dm m -> exists vals, packed E ezero m = Ok vals.
 Proof. exact packed_total. Qed.
 
-(* the dense matrix reader validates nothing: its result is well-formed iff the document is *)
-Theorem dense_reader_validates_nothing :
-  forall E D (rd : D -> res E) d m b, read_dm E D rd b d = Ok m ->
-  dm_rows m = dmd_rows d /\ dm_cols m = dmd_cols d /\ zlen (dm_vals m) = zlen (dmd_values d) /\
-  (wf_dm m <-> 0 <= dmd_rows d /\ 0 <= dmd_cols d /\ zlen (dmd_values d) = dmd_rows d * dmd_cols d).
-Proof. exact read_dm_shape. Qed.
+(* reader safety (d37b260), every document: no panic (given an element reader that does not panic); an accepted
+   document has non-negative dimensions and is well-formed EXACTLY when Rows*Cols did not wrap around *)
+Theorem dense_reader_safety :
+  forall E D (rd : D -> res E) b d, (forall x, no_panic (rd x)) ->
+  no_panic (read_dm E D rd b d) /\
+  forall m, read_dm E D rd b d = Ok m ->
+    dm_rows m = dmd_rows d /\ dm_cols m = dmd_cols d /\ 0 <= dm_rows m /\ 0 <= dm_cols m /\
+    zlen (dm_vals m) = zlen (dmd_values d) /\ zlen (dm_vals m) = wrap64 (dmd_rows d * dmd_cols d) /\
+    (wf_dm m <-> dmd_rows d * dmd_cols d < 2^63).
+Proof. intros E D rd b d Hrd. split; [apply read_dm_total; exact Hrd|intros m; apply read_dm_safe]. Qed.
 
-Theorem dense_reader_safety_refuted :
-  exists d m, Zrdm d = Ok m /\ ~ wf_dm m /\ dm_at Z m 0 0 = Panic.
-Proof. exact dense_reader_unsafe_refuted. Qed.
+(* STILL A DEFECT (F-JSON-DENSE-OVERFLOW): Rows = Cols = 2^32, Values = [] is accepted *)
+Theorem dense_reader_overflow_refuted :
+  exists d m, Zrdm d = Ok m /\ ~ wf_dm m /\ dm_rows m = 2^32 /\ dm_at Z m 0 0 = Panic.
+Proof. exact dense_reader_overflow_refuted'. Qed.
 
-Theorem dense_real_reader_panic_refuted :
-  read_dm Z Z (read_plain Z Z Zparse) true (mkDmDoc [] (-1) 0) = Panic.
-Proof. exact dense_real_reader_panics_refuted. Qed.
+Theorem dense_reader_regression :
+  Zrdm (mkDmDoc [] 1 1) = Err /\ Zrdm (mkDmDoc [1; 2; 3] 2 2) = Err /\ Zrdm (mkDmDoc [] (-1) 0) = Err /\
+  read_dm Z Z (read_plain Z Z Zparse) true (mkDmDoc [] (-1) 0) = Err /\
+  read_dm Z Z (read_plain Z Z Zparse) true (mkDmDoc [] 0 (-1)) = Err /\
+  Zrdm (mkDmDoc [1; 2] 1 2) = Ok (mkDm [1; 2] 1 2 0 1 0 2 false).
+Proof. exact ProofsDense.dense_reader_regression. Qed.
 
 (* the two element codecs of the library plugged in: plain numbers are returned exactly ... *)
 Theorem dense_plain_vector_roundtrip_exact :
@@ -142,24 +166,38 @@ Proof. exact dense_plain_vector_exact. Qed.
 
 Theorem dense_plain_matrix_roundtrip_all_views :
   forall F T (fmtJ : F -> option T) parseJ, token_roundtrip fmtJ parseJ ->
-  forall (m : dmat F) d ez, wf_dm m -> write_dm F T (write_plain F T fmtJ) ez m = Ok d ->
+  forall (m : dmat F) d ez, wf_dm m -> dm_rows m * dm_cols m < 2^63 -> write_dm F T (write_plain F T fmtJ) ez m = Ok d ->
   exists m', read_dm F T (read_plain F T parseJ) false d = Ok m' /\ wf_dm m' /\ dm_obs_eq eq m m'.
 Proof. exact dense_plain_matrix. Qed.
 
-(* ... and Real elements with their derivatives (except Hessian-only elements) *)
+(* ... and Real elements with their derivatives — every well-formed Real element *)
 Theorem dense_real_vector_roundtrip :
   forall F T zero nz (fmtJ : F -> option T) parseJ, nz zero = false -> token_roundtrip fmtJ parseJ ->
-  forall v d, Forall (real_good F nz) v -> write_dv (real F) (sdoc T) (write_real F T nz fmtJ) v = Ok d ->
-  exists v', read_dv (real F) (sdoc T) (read_real F T parseJ) d = Ok v' /\ Forall2 (real_obs_eq F zero nz) v v'.
+  forall v d, Forall (wf_real F) v -> write_dv (real F) (sdoc T) (write_real F T nz fmtJ) v = Ok d ->
+  exists v', read_dv (real F) (sdoc T) (read_real F T zero parseJ) d = Ok v' /\ Forall2 (real_obs_eq F zero nz) v v'.
 Proof. exact dense_real_vector. Qed.
 
 Theorem dense_real_matrix_roundtrip_all_views :
   forall F T zero nz (fmtJ : F -> option T) parseJ, nz zero = false -> token_roundtrip fmtJ parseJ ->
-  forall (m : dmat (real F)) d ez, wf_dm m -> Forall (real_good F nz) (dm_vals m) ->
+  forall (m : dmat (real F)) d ez, wf_dm m -> dm_rows m * dm_cols m < 2^63 -> Forall (wf_real F) (dm_vals m) ->
   write_dm (real F) (sdoc T) (write_real F T nz fmtJ) ez m = Ok d ->
-  exists m', read_dm (real F) (sdoc T) (read_real F T parseJ) true d = Ok m' /\ wf_dm m' /\
+  exists m', read_dm (real F) (sdoc T) (read_real F T zero parseJ) true d = Ok m' /\ wf_dm m' /\
              dm_obs_eq (real_obs_eq F zero nz) m m'.
 Proof. exact dense_real_matrix. Qed.
+
+(* Real containers, reader safety including the elements, every document *)
+Theorem dense_real_reader_safety :
+  forall F T zero (parseJ : T -> option F),
+  (forall d, no_panic (read_dv (real F) (sdoc T) (read_real F T zero parseJ) d) /\
+     forall v, read_dv (real F) (sdoc T) (read_real F T zero parseJ) d = Ok v -> Forall (wf_real F) v) /\
+  (forall d b, no_panic (read_dm (real F) (sdoc T) (read_real F T zero parseJ) b d) /\
+     forall m, read_dm (real F) (sdoc T) (read_real F T zero parseJ) b d = Ok m ->
+       Forall (wf_real F) (dm_vals m) /\ (dmd_rows d * dmd_cols d < 2^63 -> wf_dm m)).
+Proof.
+  intros F T zero parseJ. split.
+  - intros d. split; [apply read_dv_total, real_reader_total|intros v; apply dense_real_vector_reader_safe].
+  - intros d b. split; [apply read_dm_total, real_reader_total|intros m; apply dense_real_matrix_reader_safe].
+Qed.
 
 (* ---------------------------------------------------------- sparse matrices *)
 (* full matrices and slices; "the writer returned a document" excludes exactly the slices whose
@@ -177,20 +215,37 @@ Theorem sparse_matrix_repack_total_when_entries_inside :
   exists st, storage E enul m = Ok st.
 Proof. exact storage_ok_inside. Qed.
 
+(* STILL A DEFECT (F-JSON-SPSLICE) *)
 Theorem sparse_matrix_slice_write_refuted : wf_sm spslice_witness /\ Zwsm spslice_witness = Panic.
 Proof. exact sparse_slice_write_refuted. Qed.
 
-Theorem sparse_matrix_reader_safety_refuted :
-  Zrsm (mkSmDoc [1] [1] 1 1) = Panic /\
-  (exists m, Zrsm (mkSmDoc [-1] [1] 1 1) = Ok m /\ ~ wf_sm m) /\
-  (exists m, Zrsm (mkSmDoc [] [] (2^32) (2^32)) = Ok m /\ sv_n (sm_vals m) = 0 /\ ~ wf_sm m).
-Proof. exact sparse_matrix_reader_refuted. Qed.
+(* reader safety at full strength (a328708), every document: negative and overflowing dimensions, indices outside
+   [0, Rows*Cols) and repeated indices are errors; what is accepted is well-formed *)
+Theorem sparse_matrix_reader_safety :
+  forall F T nz (parseJ : T -> option F) d,
+  no_panic (read_sm F T nz parseJ d) /\
+  forall m, read_sm F T nz parseJ d = Ok m -> wf_sm m /\ sm_rows m = smd_rows d /\ sm_cols m = smd_cols d.
+Proof. intros F T nz parseJ d. split; [apply read_sm_total|intros m; apply read_sm_safe]. Qed.
+
+(* the reader's overflow test Rows*Cols/Cols == Rows (wrapping *, truncating /) is exact *)
+Theorem sparse_matrix_overflow_test_exact :
+  forall rows cols, 0 <= rows -> 0 <= cols ->
+  (sm_dims_bad rows cols = false <-> wrap64 (rows * cols) = rows * cols).
+Proof. exact sm_overflow_test_exact. Qed.
+
+Theorem sparse_matrix_reader_regression :
+  Zrsm (mkSmDoc [1] [1] 1 1) = Err /\ Zrsm (mkSmDoc [-1] [1] 1 1) = Err /\
+  Zrsm (mkSmDoc [] [] (2^32) (2^32)) = Err /\ Zrsm (mkSmDoc [] [] 3037000500 3037000500) = Err /\
+  Zrsm (mkSmDoc [] [] (-1) (-1)) = Err /\ Zrsm (mkSmDoc [0; 0] [1; 1] 1 1) = Err /\
+  Zrsm (mkSmDoc [3; 0] [5; 0] 2 2) = Ok (mkSm (mkSv [(3, 5)] 4) 2 2 0 2 0 2).
+Proof. exact ProofsSparseMat.sparse_matrix_reader_regression. Qed.
 
 (* ------------------------------------------------------------------ the hypotheses are satisfiable *)
 Example hypotheses_satisfiable :
   token_roundtrip Zfmt Zparse /\ Znz 0 = false /\
   wf_dm view1 /\ dm_is_view Z view1 = true /\
   wf_real Z (mkReal 3 2 2 [1; 0] [[0; 2]; [2; 0]]) /\ ~ hess_only Z Znz (mkReal 3 2 2 [1; 0] [[0; 2]; [2; 0]]) /\
+  wf_real Z (mkReal 3 2 2 [0; 0] [[0; 2]; [2; 0]]) /\ hess_only Z Znz (mkReal 3 2 2 [0; 0] [[0; 2]; [2; 0]]) /\
   wf_sv (mkSv [(1, 5); (2, 0); (4, 7)] 6).
 Proof.
   split. { intros x t H. inversion H; reflexivity. }
@@ -199,6 +254,8 @@ Proof.
   split; [reflexivity|].
   split. { unfold wf_real; simpl. repeat split; try discriminate; repeat constructor. }
   split. { intros [H _]. vm_compute in H. discriminate. }
+  split. { unfold wf_real; simpl. repeat split; try discriminate; repeat constructor. }
+  split. { split; reflexivity. }
   unfold wf_sv, sorted, keys; simpl. split; [discriminate|]. split; repeat constructor; simpl; discriminate || reflexivity.
 Qed.
 
